@@ -99,9 +99,11 @@ TEXTS = {
                 level_text=("Kernel-checked theorems (Properties/C15.lean): for every class and every rune < 128 the table entry computed by BasicLatinLookup equals the decision of the general matching procedure (C15_table_eq_general), and parseCharClassMatcher returns the same outcome with and without the table for every parser state — ASCII, non-ASCII, invalid byte, end of input (C15_equiv). "
                             "Tie: the tables in the generated cases come from the real builder.BasicLatinLookup and the model driver recomputes each of them (all 128 entries) from the class descriptor; every case of a table variant is also run on the general-path variant of the real generated parser and the results compared."),
                 level_note=RT_NOTE + " unicode.Is is modelled as membership in the range table passed in the case line; unicode.ToLower comes from the stream header."),
-    "C08": dict(technique="differential: real left-recursive parsers vs Lean model (full result) and vs the plain parser of the iterative twin grammar; Lean lemmas on the seed-growing loop",
+    "C08": dict(technique="Lean 4 theorem (left-recursive parsing terminates when every same-position cycle passes through a leader) + differential: real left-recursive parsers vs Lean model (full result) and vs the plain parser of the iterative twin grammar; Lean lemmas on the seed-growing loop",
                 design_ref="DESIGN.md §5 C08",
-                level_text=("Every generated left-recursive case (direct, indirect, nested towers; all 8 LeftRecursion template variants; Memoize on/off) is run on the real generated parser and on the Lean model and compared on the full result (values, errors, stores, block trace); "
+                level_text=("TERMINATION, kernel-checked (C08_left_recursive_parse_terminates; Proofs/AdvanceLR.lean, Conv.lean, LRTerm.lean): left-recursion template, Memoize off, no budget; if the grammar has a closed nullability oracle, repetitions over non-nullable bodies, no throw/recover, and a ranking that decreases along every first-graph edge except those into leader rules (every same-position cycle passes through a leader), then Parse returns on every input for every code environment; with it C08_progress_with_seeds (no step back, nullable soundness, every seed respects progress, the table only grows). "
+                            "The hypothesis is decided by an executable checker proved sound (checkLRWF_sound): the check asks it for every generated case (how many it accepts is in the evidence) and, on the BUILDER's side, verifies on generated grammars that the leader marks of builder.PrepareGrammar cover every cycle of its own first graph (a cycle without a leader is a concrete grammar whose parser recurses without bound: C08_cycle_without_leader_has_no_ranking). "
+                            "Every generated left-recursive case (direct, indirect, nested towers; all 8 LeftRecursion template variants; Memoize on/off) is run on the real generated parser and on the Lean model and compared on the full result (values, errors, stores, block trace); "
                             "direct left recursion without predicates is additionally run as its iterative twin (b1/../bm)(a1/../an)* on the plain template, which must match exactly the same prefix. Kernel-checked lemmas on the loop of the model: a failing or non-extending growth attempt is dropped with errors and store restored, an extending one becomes the seed, "
                             "the recursive reference is answered from the seed, adopted growths strictly extend, and termination under a budget (C16_terminates covers left-recursive grammars). The equality 'seed growing = iteration' itself is not proved - it is false for the code as it is: known findings D6 (a leader memo hit drops #{} effects), D25 (indirect recursion entered through the non-leader rule is not greedy) and D26 (a memo hit loses a rolled-back error), "
                             "each with a kernel-evaluated witness on the model (C08_D25_..., C08_D26_..., C05_D6_...) that the check replays on the real parser."),
